@@ -248,7 +248,7 @@ def sequence(sym, n1, n2, idx):
     mode    = sym.choice('mode', ['single','chain','union'])
     op2     = sym.choice('op2', ['=','!=','<','>=']) if mode == 'chain' else None
     posform = sym.flag('posform') if mode == 'union' else False
-    sym.choices['n2'] = n2
+    sym.choices['n2'] = n2; sym.choices['n1'] = n1; sym.choices['idx'] = idx
     rows1 = cells(sym, n1, ['a','b'], missing=False, tag='p')
     rows2 = cells(sym, n2, ['a','b'], missing=False, tag='q')
     rid = 0
@@ -293,11 +293,36 @@ def sequence(sym, n1, n2, idx):
     sym.check([g[2] for g in gotrows] == [e[2] for e in exp], f"where after history ({mode})")
 
 def _classify_seq(v):
-    ch, what = v['choices'], v['what']
+    ch, what, m = v['choices'], v['what'], v['model']
     rx = ['same','none','other'][ch.get('reindex',0)]
-    stale = ch.get('n2',0) > 0 and rx == 'none'
+    n1, n2, cols = ch.get('n1',0), ch.get('n2',0), INDEXES[ch.get('idx',1)]
+    ki = [['a','b'].index(c) for c in cols]
+    r1 = sorted([[m.get(f'pa{i}',0), m.get(f'pb{i}',0)] for i in range(n1)], key=lambda r: [r[k] for k in ki])
+    r2 = [[m.get(f'qa{i}',0), m.get(f'qb{i}',0)] for i in range(n2)]
+    keys = [[r[k] for k in ki] for r in r1+r2]
+    out_of_order = any(x > y for x,y in zip(keys, keys[1:]))
+    stale = n2 > 0 and rx in ('none','same') and out_of_order
     if stale and ('where after history' in what or 'uncaught' in what):
-        return "stale-index:rows inserted into an indexed table, no index() call before where()"
+        return "stale-index:rows inserted into an indexed table, where() bisects unsorted data"
     if 'uncaught' in what:
         return f"raises-{what.split(':')[0].replace('uncaught ','')}"
     return what
+
+@obligation('C17','union_order', bounds="10-row table with concrete distinct cells (a=i, b=3i mod 10), index lists {(),(a),(b)}; symbolic arguments in [-1,10]; two keyword conditions / 'in' lists; result must be the union in table order",
+            functions=FUNCS, params=lambda tier: [dict(idx=i, form=f) for i in (0,1,2) for f in ('eq2','in_eq','pos')])
+def union_order(sym, idx, form):
+    N = 10
+    rows = [[i, (3*i) % N, i] for i in range(N)]
+    t = Table(columns=['a','b','id']).insert([list(r) for r in rows])
+    if INDEXES[idx]: t.index(*INDEXES[idx])
+    table_rows = rows_of(t)
+    x1 = sym.int('x1',-1,N); x2 = sym.int('x2',-1,N)
+    if form == 'eq2':
+        got = t.where(a=x1, b=x2); keep = lambda r: (r[0]==x1) | (r[1]==x2)
+    elif form == 'in_eq':
+        x3 = sym.int('x3',N-2,N-1)
+        got = t.where(a=[x1,x3], b=x2); keep = lambda r: (r[0]==x1) | (r[0]==x3) | (r[1]==x2)
+    else:
+        got = t.where(None, '<=', a=x1, b=x2); keep = lambda r: (r[0]<=x1) | (r[1]<=x2)
+    exp = [r[2] for r in table_rows if keep(r)]
+    sym.check([r[2] for r in rows_of(got)] == exp, f"union of keyword conditions not in table order / wrong rows ({form})")
